@@ -87,7 +87,7 @@ func genC17(r *Rng, k int, tier string) *RunSpec {
 			d["@context"] = asCtx
 			st.W.Remote = append(st.W.Remote, DocSpec{id, mustJSON(d)})
 			if r.Intn(6) == 0 {
-				st.W.Fate[id] = Pick(r, []string{"unreachable", "unknowntype", "nocontext", "notype", "trailing"})
+				st.W.Fate[id] = Pick(r, []string{"unreachable", "unknowntype", "nocontext", "notype"}) // (bytes that are no JSON at all are C11's matter, see Assumptions)
 			}
 			return id
 		}
@@ -141,7 +141,7 @@ func genC17(r *Rng, k int, tier string) *RunSpec {
 			// search goes on along the others
 			hid := "https://" + hostR + "/tags/c17"
 			st.W.Remote = append(st.W.Remote, DocSpec{hid, mustJSON(J{"@context": asCtx, "type": "Note", "id": hid, "name": "#c17"})})
-			st.W.Fate[hid] = Pick(r, []string{"nocontext", "notype", "trailing", "unreachable", "nonjson"})
+			st.W.Fate[hid] = Pick(r, []string{"nocontext", "notype", "unreachable", "unknowntype"})
 			n["tag"] = hid
 		}
 		f["object"] = n
